@@ -207,6 +207,28 @@ fn pst13(c: &mut Ctx, max_h: usize) {
         let mut rng0 = rng_for("c07-pst", nv as u64);
         let pp = Pst13PC::setup(d, Some(nv), &mut rng0).unwrap();
         let (ck, vk) = Pst13PC::trim(&pp, d, max_h, None).unwrap();
+        // two polynomials in ONE commit call: each gets its own blinding polynomial
+        {
+            use ark_poly::DenseMVPolynomial;
+            c.events.push(json!({"ev": "reset"}));
+            let mut rng = LogRng::new(2900 + nv as u64);
+            let mut rp = rng_for("c07-pstpoly-multi", nv as u64);
+            let lps: Vec<_> = (0..2)
+                .map(|i| {
+                    let spec = PolySpec { l: i + 1, cls: "mixed".into(), deg: d as i64, lz: 0, bound: -1, hid: 1 };
+                    LabeledPolynomial::new(plabel(i + 1), mv_poly::<F>(&spec, nv, &mut rp), None, Some(1))
+                })
+                .collect();
+            let (_cm, st) = Pst13PC::commit(&ck, lps.iter(), Some(&mut rng as &mut dyn RngCore)).unwrap();
+            let smp: Vec<F> = samples(&rng.bytes);
+            let mut coeffs: Vec<F> = vec![];
+            for s_ in st.iter() {
+                coeffs.extend(s_.blinding_polynomial.terms().iter().map(|(c_, _)| *c_));
+            }
+            c.events.push(json!({"ev": "commit", "scheme": "pst13", "nv": nv, "sup": d,
+                "polys": [json!({"h": 1, "bounded": false}), json!({"h": 1, "bounded": false})],
+                "start": 0, "n": smp.len(), "state_is_samples": drawn_from(&coeffs, &smp), "blind_ok": true, "state_empty": false}));
+        }
         for h in 1..=max_h.min(d) {
             c.events.push(json!({"ev": "reset"}));
             let mut rng = LogRng::new(2000 + (nv * 10 + h) as u64);
@@ -316,6 +338,33 @@ fn ipa(c: &mut Ctx) {
             }
         }
     }
+}
+
+/// Several polynomials in ONE commit call: every polynomial (and every shifted part) gets its own samples.
+fn ipa_multi(c: &mut Ctx) {
+    type F = FrEd;
+    let mut rng0 = rng_for("c07-ipa", 0);
+    let pp = IpaPC::setup(7, None, &mut rng0).unwrap();
+    let (ck, _vk) = IpaPC::trim(&pp, 7, 1, None).unwrap();
+    c.events.push(json!({"ev": "reset"}));
+    let mut rng = LogRng::new(3900);
+    let mut rp = rng_for("c07-ipapoly-multi", 0);
+    let shapes = [(1usize, false), (1, true), (2, false)];
+    let lps: Vec<_> = shapes.iter().enumerate()
+        .map(|(i, (h, b))| LabeledPolynomial::new(plabel(i as i64 + 1), UniPoly::<F>::rand(3, &mut rp), if *b { Some(7) } else { None }, Some(*h)))
+        .collect();
+    let (_cm, st) = IpaPC::commit(&ck, lps.iter(), Some(&mut rng as &mut dyn RngCore)).unwrap();
+    let smp: Vec<F> = samples(&rng.bytes);
+    let mut flat = vec![];
+    for s_ in st.iter() {
+        flat.push(s_.rand);
+        if let Some(x) = s_.shifted_rand {
+            flat.push(x);
+        }
+    }
+    c.events.push(json!({"ev": "commit", "scheme": "ipa", "nv": 0, "sup": 7,
+        "polys": shapes.iter().map(|(h, b)| json!({"h": h, "bounded": b})).collect::<Vec<_>>(),
+        "start": 0, "n": smp.len(), "state_is_samples": drawn_from(&flat, &smp), "blind_ok": true, "state_empty": false}));
 }
 
 fn hyrax(c: &mut Ctx) {
@@ -434,6 +483,7 @@ pub fn run(max_h: usize) -> (Vec<Value>, Vec<Value>) {
     kzg_family(&mut c, true, max_h);
     pst13(&mut c, max_h);
     ipa(&mut c);
+    ipa_multi(&mut c);
     hyrax(&mut c);
     seeds::<Marlin>(&mut c, 4, -1, 4);
     seeds::<Marlin>(&mut c, 4, -1, -1);
